@@ -71,6 +71,12 @@ impl Prop for PDelete {
         let mut v = w.gen(rng, idx, tier);
         v["cfg"]["sorted"] = json!(true);
         v["cfg"]["prune"] = json!([]);
+        // unreadable directories belong to C02 (they need the binary run as an unprivileged user)
+        for t in v["tree"].as_array_mut().unwrap() {
+            if let Some(o) = t.as_object_mut() {
+                o.remove("noread");
+            }
+        }
         v["cfg"]["depth"] = json!(false);
         v.as_object_mut().unwrap().remove("form");
         if v["cfg"].get("modeflag").is_some() {
